@@ -288,8 +288,12 @@ def run_c09(ctx):
     nvalid = sum(1 for p in progs if p["valid"])
     if nvalid < 20 or len(progs) - nvalid < 1000:
         raise ToolError("too few validation vectors: %d valid, %d invalid" % (nvalid, len(progs) - nvalid))
+    vs = gen_programs(ctx, "valstruct", 0, name="valstruct", spec="FSpec", workers=w)
+    add_code_len(vs)
+    progs += vs
     tot = run_programs(ctx, progs, "typing", extra_args=["--nobudget"])
-    ctx.extra["typing_vectors"] = {"valid": nvalid, "invalid": len(progs) - nvalid}
+    ctx.extra["typing_vectors"] = {"valid": sum(1 for p in progs if p["valid"]), "invalid": sum(1 for p in progs if not p["valid"]),
+                                   "skeleton_valid": sum(1 for p in vs if p["valid"]), "skeleton_invalid": sum(1 for p in vs if not p["valid"])}
     # (b) module-level restrictions at limit-1 / limit / limit+1
     r = ctx.tlc(SPEC, "ModuleLimits.tla", "ModuleLimits_exh.cfg", workers=w, timeout=1800)
     lim = []
